@@ -8,6 +8,8 @@ TLC:  MCPratt generates every token list of the grammar up to a bound (every ope
       table, statements separated by ; or juxtaposition) and checks that (A) and (B) agree, that
       the result satisfies ValidTree and (short lists) that ValidTree has exactly one solution
       among all trees; with the deviations of the pinned code TLC must refute the agreement.
+      MCPrattForms does the same on a family of if/else chains (arms with and without braces,
+      break/continue among them) and go-style for statements.
 bind: the harness renders token lists to text (tight / spaced / loose / mixed spacing), runs
       (infixExpand {..}), {..} and the predicted prefix program on the real interpreter and
       PrattTrace decides every recorded block with definition (A): tokens delivered by the
@@ -18,7 +20,7 @@ import vlib, flow
 
 PROP = "C06"
 FAMILY = "pratt"
-DEVS = ["dotpath-stmt-swallowed", "not-stmt-swallowed", "slice-colon-lost-after-dotpath"]
+DEVS = ["dotpath-stmt-swallowed", "not-stmt-swallowed", "slice-colon-lost-after-dotpath", "ctl-label-any-symbol"]
 
 
 def _devs_env():
@@ -145,17 +147,26 @@ def run():
         "samples": samples,
         "exhaustive": True,
         "rule": "x: every operator sequence with <= %d operators in total (all 19 binary operators, not, [..], .x, ++/--), "
-                "operands rotated through 30 operand forms, tight and spaced; n: indexing/slicing/field access/calls/"
-                "nested blocks on both sides of every operator; s: every ordered pair of 21 statement forms x 3 "
-                "separators x 2 spacings; i/f: if/else chains and go-style for headers; t/r: seeded random typed "
-                "programs and untyped operator sequences (4..12 operators)" % (4 if thorough else 3),
+                "operands rotated through 36 operand forms (every literal kind: int in 4 spellings, float, bool, string, "
+                "nil, char, uint64), tight and spaced; n: indexing/slicing/field access/calls/nested blocks on both sides "
+                "of every operator; s: every ordered pair of 25 statement forms (4 of them start with a nil/char/uint64/hex "
+                "literal) x 3 separators x 2 spacings; i: if/else chains, arms with and without braces; f: go-style for "
+                "headers, break/continue with and without braces followed by else or by the next statement; l: slices whose "
+                "lower bound is a literal of every spelling directly before the colon, Inf after + and -; t/r: seeded "
+                "random typed programs and untyped operator sequences (4..12 operators)" % (4 if thorough else 3),
     }
     return flow.finish(out, "translation_validation", cov, [
         "the translator is observed through (infixExpand {..}) and zygo.InfixExpandArray (nested blocks); "
         "tokens through (quote {..}); a label's and a slice bound's colon flag is not observable there and is "
         "checked through the tree only",
-        "go-style `for .. range` headers (gensym lowering), prefix `*`/`-`, `[`-literals at statement start, "
-        "++/-- inside expressions and asymmetric spacing around + and - are outside the generated domain",
+        "go-style `for .. range` headers (gensym lowering), prefix `*`/`-`, `[`-literals at statement start "
+        "(`x [..]` is indexing whatever the white space), ++/-- inside expressions, asymmetric spacing around + and - "
+        "and texts whose adjacent tokens spell another token of the reader (`a<-2`, `a--2`) are outside the generated domain",
+        "the body of a go-style for is the first block after `for` (as in Go): a nested block as an operand of the "
+        "header is outside the domain; an if/else arm without braces is one expression or one break/continue "
+        "(tests/if.zy); the symbol after break/continue is its label only when no operator or postfix extends it",
+        "comments inside blocks are not generated; Inf is generated only as the right operand of + and - "
+        "(in a prefix list the reader glues a head + or - to a directly following Inf)",
         "and/or are taken as one right-associative level (doc comment of Zlisp.Infixr); the property text "
         "names right associativity only for assignment and **",
         "errors are compared as errors only; blocks under the comma operator carry no nested blocks "
